@@ -423,7 +423,8 @@ def run(ctx):
     if lres.violated:
         raise common.MachineryError("SseWsgi.tla liveness: " + tlc.describe(lres))
     # witness: the original finally block must deadlock in the model
-    tlc.write_mc(wd, "MC_SseWsgiOrig", "SseWsgi", constants=dict(MaxN=2, Fixed=False), cfg_lines=cfg)
+    tlc.write_mc(wd, "MC_SseWsgiOrig", "SseWsgi", constants=dict(MaxN=2, Fixed=False),
+                 cfg_lines=["SPECIFICATION Spec", "CONSTRAINT Bound", "CHECK_DEADLOCK FALSE", "INVARIANT NoStuck"])
     wres = tlc.run_tlc(wd, "MC_SseWsgiOrig", workers=4, coverage=False)
     if wres.violated != "NoStuck":
         raise common.MachineryError("witness failed: SseWsgi.tla with Fixed=FALSE does not violate NoStuck (%s)" % wres.violated)
